@@ -252,11 +252,17 @@ pub fn run_library(c: &Case, d: &Dense) -> Result<Outputs, Stop> {
             // the new parameters may describe a model of another size (one more state)
             let s2 = d.s + 1;
             let (t3, e3, i3, end3) = (Array2::from_elem((s2, s2), uni(s2 + 1)), Array2::from_elem((s2, d.m), uni(d.m)), Array1::from_elem(s2, uni(s2)), Array1::from_elem(s2, uni(s2 + 1)));
-            cl.update_matrices(t3.clone(), e3.clone(), i3.clone(), end3.clone());
-            let grown = run(&cl, &obs);
-            let Ok(fresh3) = OptEnd::new(RefCell::new(t3), RefCell::new(e3), RefCell::new(i3), RefCell::new(end3), endv.is_some()) else { fail!("constructor rejected uniform matrices S={} M={}", s2, d.m) };
-            let want3 = run(&fresh3, &obs);
-            ensure!(same_outputs(&grown, &want3), "a model of {} states re-parameterised through update_matrices with matrices for {} states answers {:?}, a model constructed from those matrices {:?}", d.s, s2, grown, want3);
+            // (a refusal - a panic saying that the shape may not change - would be a legitimate answer to this use;
+            // what may not happen is a silent answer for some other model)
+            let attempt = catch(|| {
+                cl.update_matrices(t3.clone(), e3.clone(), i3.clone(), end3.clone());
+                run(&cl, &obs)
+            });
+            if let Ok(grown) = attempt {
+                let Ok(fresh3) = OptEnd::new(RefCell::new(t3), RefCell::new(e3), RefCell::new(i3), RefCell::new(end3), endv.is_some()) else { fail!("constructor rejected uniform matrices S={} M={}", s2, d.m) };
+                let want3 = run(&fresh3, &obs);
+                ensure!(same_outputs(&grown, &want3), "a model of {} states re-parameterised through update_matrices with matrices for {} states answers {:?}, a model constructed from those matrices {:?}", d.s, s2, grown, want3);
+            }
             out
         }
     };
